@@ -26,7 +26,7 @@ BATTERY_FNS = [B + "Battery.__init__", B + "Battery.charge", B + "Battery.reset"
                B + "Linear2StageBattery._charge", B + "Linear2StageBattery._charge_stepwise"]
 SET_PILOT = [S + "BaseEVSE.set_pilot@EVSE", S + "BaseEVSE.set_pilot@DeadbandEVSE", S + "BaseEVSE.set_pilot@FiniteRatesEVSE"]
 
-SHARDS = {B + "batt_cap_fn": 8, AE + "_convert_to_ev": 4, SIM + "run": 16, SIM + "_process_event": 4, EQ + "get_current_events": 8, EQ + "add_events": 3, EQ + "__init__": 3, B + "Linear2StageBattery._charge": 6, B + "Linear2StageBattery._charge_stepwise": 2}
+SHARDS = {SIM + "_update_schedules": 8, SIM + "_store_actual_charging_rates": 4, B + "batt_cap_fn": 8, AE + "_convert_to_ev": 4, SIM + "run": 16, SIM + "_process_event": 4, EQ + "get_current_events": 8, EQ + "add_events": 3, EQ + "__init__": 3, B + "Linear2StageBattery._charge": 6, B + "Linear2StageBattery._charge_stepwise": 2}
 
 EVSE_FNS = [S + x for x in (
     "BaseEVSE.__init__", "EVSE.__init__", "DeadbandEVSE.__init__", "FiniteRatesEVSE.__init__",
@@ -39,10 +39,14 @@ SHARDS[S + "get_evse_by_type"] = 8
 PLAN = {
     "C02": dict(
         level="other",
-        functions=BATTERY_FNS + [E + "EV.charge", E + "EV.reset"] + SET_PILOT,
+        functions=BATTERY_FNS + [E + "EV.charge", E + "EV.reset"] + SET_PILOT + [NET + "update_pilots", NET + "current_charging_rates",
+                                                                                   SIM + "_store_actual_charging_rates"],
         bounded=[dict(module="rt.drivers", fn="sim_monitor", label="whole-simulation ledger clauses"),
                  dict(module="rt.drivers", fn="stochastic_sim_monitor", label="ledger clauses with early departure (StochasticNetwork)")],
-        text="PROVED (all inputs, no bound): every battery charge variant updates the stored charge by exactly rate x V/1000 x period/60 "
+        text="PROVED additionally: current_charging_rates[k] = the occupant's current rate, 0 if vacant, in station order; "
+             "_store_actual_charging_rates writes exactly that vector into column t (every other cell unchanged, new columns 0) and sets peak = "
+             "max(peak, sum of the vector) (Sum theory); update_pilots keeps every valid battery valid. "
+             "PROVED (all inputs, no bound): every battery charge variant updates the stored charge by exactly rate x V/1000 x period/60 "
              "for the rate it returns; EV.charge adds the same energy to the session's delivered energy and records the rate; the EV "
              "invariant 'delivered = battery charge - initial charge' is preserved by charge and re-established by reset; set_pilot "
              "performs exactly one charge of the occupant (and none when vacant or rejected). BOUNDED (run-time contracts on the real "
@@ -79,14 +83,24 @@ PLAN = {
     ),
     "C04": dict(
         level="other",
+        functions=[SIM + "_update_schedules", "acnportal.acnsim.simulator._increase_width", NET + "update_pilots", SIM + "run"],
         bounded=[dict(module="rt.drivers", fn="sim_monitor", label="schedule overlay clauses on whole simulations")],
-        text="BOUNDED so far: the recorded and the applied pilot of every station and period equal the overlay of the submitted "
-             "schedules (ghost matrix rebuilt from the schedules the scheduler returned: omitted stations 0, empty schedule no change, "
-             "uncovered periods 0, entry order irrelevant, over-long schedules at any period), set_pilot receives the station's voltage and "
-             "the period, exactly once per station and period.",
-        note="no obligation is proved for C04 yet; bounded by the scenario space written in the evidence",
-        explanation="bounded run-time contract monitor only (rt.simcheck clauses C04.*)",
-        technique="run-time contract monitor on the real functions (bounded stand-in); deductive obligations pending",
+        text="PROVED (all schedules: any subset of stations, any common length, empty, longer than the horizon, at any period incl. the last; all matrix "
+             "sizes; no bound): Simulator._update_schedules against a whole-matrix postcondition keyed by station id - for EVERY cell, columns "
+             "t..t+len-1 hold the submitted value of that station or 0 if the mapping omits it, every other old column is unchanged, new columns are 0, "
+             "the width never shrinks and covers the schedule; an empty schedule changes nothing; an unknown station raises KeyError and unequal lengths "
+             "raise InvalidScheduleError, both with every heap field unchanged and exactly in those cases; the infeasible-schedule branch only warns and "
+             "is exception free (shape obligations of its numpy arithmetic); _increase_width keeps old content and pads with zeros; "
+             "ChargingNetwork.update_pilots (loop invariant) leaves every station with exactly column i of the matrix as its pilot; in Simulator.run "
+             "every precondition of these callees is discharged at its call site (shapes, column index inside the matrix). Because the postcondition "
+             "is keyed by station id it does not depend on the order of the mapping's entries. BOUNDED: the composition over a whole run (recorded = "
+             "applied = overlay of all submitted schedules) on seeded simulations.",
+        note="numpy operations (np.array of equal-length rows, zeros, slice / column assignment, tile, argmax, unravel_index, shape) are assumed "
+             "contracts (A-LIB); network.is_feasible / constraint_current enter only through structural facts (shape; no constraints or no columns => "
+             "feasible); set(len(x) ...) is characterised by 'at most one element iff all lengths are equal'",
+        explanation="proved: whole-matrix postcondition of _update_schedules, _increase_width, update_pilots, callee preconditions in run; bounded: overlay over whole runs (rt.simcheck C04.*)",
+        technique="contract-based deductive verification with a matrix theory for the numpy operations used (pyvc/z3) + run-time contract monitor (bounded) for the whole-run overlay",
+        trusted=["numpy axioms used: array(list of equal-length rows), zeros, [:, lo:hi] = M, [:, j] = v, [i, j], shape, tile(v,(n,1)).T, abs, -, argmax range, unravel_index"],
     ),
     "C05": dict(
         level="other",
